@@ -378,6 +378,13 @@ def c01_corpus(tier, seed):
     for kind in ALL_KINDS:
         f = FnSpec('f1', 'bound', [P('u32'), P(kind), P('u32')])
         progs.append(single_fn_program(pid(), f))
+    # a parameter named like the fn, before and after every kind of non-identifier pattern (the rename must not depend on
+    # what precedes it), also in a module and with no_deps
+    for kind in ('wild', 'tup', 'n1', 'n2', 's', 'refpat', 'atpat', 'mut_u32'):
+        progs.append(single_fn_program(pid(), FnSpec('f1', 'bound', [P(kind), P('fname'), P('u32')])))
+        progs.append(single_fn_program(pid(), FnSpec('f1', 'impl', [P('u32'), P('fname'), P(kind)])))
+    progs.append(single_fn_program(pid(), FnSpec('f1', 'nodeps', [P('tup'), P('fname')]), opts='no_deps'))
+    progs.append(module_program(pid(), [FnSpec('fa', 'gen', [P('n1'), P('fname')], fn_id=1), FnSpec('fb', 'gen', [P('fname'), P('wild')], fn_id=2)]))
     # generic extra type param
     f = FnSpec('f1', 'gen', [P('gen'), P('gen')], extra_generic='T: Copy + Into<u64>')
     progs.append(single_fn_program(pid(), f))
